@@ -138,6 +138,34 @@ public:
 	}
 };
 
+// bodies read in chunks: a raw_content_filter / a multipart_filter installed when the headers are ready
+struct rawfilt : public cppcms::http::raw_content_filter {
+	size_t n; rawfilt() : n(0) {}
+	virtual void on_data_chunk(void const *,size_t sz) { n+=sz; }
+	virtual void on_end_of_content() {}
+	virtual void on_error() { ev_add('E'); }
+};
+struct mpfilt : public cppcms::http::multipart_filter {
+	virtual void on_end_of_content() {}
+	virtual void on_error() { ev_add('E'); }
+};
+template<typename F>
+class chunk_app : public cppcms::application {
+public:
+	chunk_app(cppcms::service &s) : cppcms::application(s) {}
+	virtual void main(std::string)
+	{
+		if(!request().is_ready()) {
+			ev_add('S');
+			request().reset_content_filter(new F());
+			return;
+		}
+		ev_add('H');
+		response().set_plain_text_header();
+		response().out() << serialise(request());
+	}
+};
+
 // ---------------------------------------------------------------- death reporting
 static int died_fd=-1;
 static void died_raw(char const *why)
@@ -189,6 +217,8 @@ struct server {
 		cfg["http"]["script_names"][0]="/sync";
 		cfg["http"]["script_names"][1]="/async";
 		cfg["http"]["script_names"][2]="/filt";
+		cfg["http"]["script_names"][3]="/rawf";
+		cfg["http"]["script_names"][4]="/mpf";
 		cfg["http"]["timeout"]=30;
 		cfg["security"]["content_length_limit"]=1024;   // KiB
 		cfg["security"]["multipart_form_data_limit"]=1024;
@@ -198,6 +228,8 @@ struct server {
 		srv=new cppcms::service(cfg);
 		srv->applications_pool().mount(cppcms::create_pool<echo_app>(),cppcms::mount_point("/async"),cppcms::app::asynchronous);
 		srv->applications_pool().mount(cppcms::create_pool<filt_app>(),cppcms::mount_point("/filt"),cppcms::app::asynchronous | cppcms::app::content_filter);
+		srv->applications_pool().mount(cppcms::create_pool<chunk_app<rawfilt> >(),cppcms::mount_point("/rawf"),cppcms::app::asynchronous | cppcms::app::content_filter);
+		srv->applications_pool().mount(cppcms::create_pool<chunk_app<mpfilt> >(),cppcms::mount_point("/mpf"),cppcms::app::asynchronous | cppcms::app::content_filter);
 		srv->applications_pool().mount(cppcms::create_pool<echo_app>(),cppcms::mount_point("/sync"),cppcms::app::synchronous);
 		srv->applications_pool().mount(cppcms::create_pool<echo_app>(),cppcms::mount_point(""),cppcms::app::synchronous);
 		using namespace cppcms::impl::cgi;
